@@ -210,6 +210,7 @@ func (ft *FT) translate() {
 			ps = append(ps, p.Name())
 		}
 		m["$params"] = strings.Join(ps, ",")
+		m["$locals"] = strings.Join(localNames(fn), ",")
 	}
 	nilTested := nilComparedParams(fn)
 	for _, p := range fn.Params {
@@ -745,4 +746,37 @@ func nilComparedParams(fn *ssa.Function) map[*ssa.Parameter]bool {
 		}
 	}
 	return out
+}
+
+// localNames: the source names of the locals of fn and of its closures.
+func localNames(fn *ssa.Function) []string {
+	set := map[string]bool{}
+	var visit func(f *ssa.Function)
+	visit = func(f *ssa.Function) {
+		for _, blk := range f.Blocks {
+			for _, in := range blk.Instrs {
+				switch x := in.(type) {
+				case *ssa.DebugRef:
+					if x.Object() != nil {
+						if _, isVar := x.Object().(*types.Var); isVar {
+							set[x.Object().Name()] = true
+						}
+					}
+				case *ssa.Alloc:
+					if x.Comment != "" {
+						set[x.Comment] = true
+					}
+				case *ssa.Phi:
+					if x.Comment != "" {
+						set[x.Comment] = true
+					}
+				}
+			}
+		}
+		for _, af := range f.AnonFuncs {
+			visit(af)
+		}
+	}
+	visit(fn)
+	return sortedKeys(set)
 }
